@@ -342,7 +342,7 @@ def gen_sequence(r, nops):
     # short strings (patterns / fillers / replacement texts with `$` selectors)
     for _ in range(2):
         d = fresh()
-        u = [r.choice([0x61, 0x62, 0x24, 0x26, 0x60, 0x27, 0x31, 0x3c, 0xe9, 0x3a3, 0xd800, 0xdc00, 0xffff]) for _ in range(r.choice([0, 1, 1, 2, 3, 6]))]
+        u = [r.choice([0x61, 0x62, 0x24, 0x26, 0x60, 0x27, 0x31, 0x3c, 0xe9, 0x3a3, 0xd800, 0xdc00, 0xffff, 0x20, 0x20, 0x09, 0xa0, 0xfeff, 0x2028, 0x3000]) for _ in range(r.choice([0, 1, 1, 2, 3, 6]))]
         lines.append("u16 %d %s" % (d, hx(hexu(u))))
     for _ in range(nops):
         k = r.random()
@@ -368,7 +368,8 @@ def gen_sequence(r, nops):
             ii = lambda: r.choice([-20, -3, -2, -1, 0, 0, 1, 1, 2, 3, 5, 8, 17, 18, 40])
             jj = lambda: r.choice(["u", "u"] + [str(x) for x in (-20, -3, -1, 0, 1, 2, 3, 5, 8, 17, 18, 40)])
             op = r.choice(["slice", "slice", "substring", "substr", "at", "charAt", "padStart", "padEnd", "padStart", "repeat",
-                           "replace", "replaceAll", "replace", "replaceAll", "fcc", "fcp", "concat", "splitjoin", "splitjoin", "splitpiece", "splitpiece"])
+                           "replace", "replaceAll", "replace", "replaceAll", "fcc", "fcp", "concat", "splitjoin", "splitjoin", "splitpiece", "splitpiece",
+                           "trim", "trimStart", "trimEnd", "raw", "splitjoinlim", "splitpiecelim"])
             if op in ("slice", "substring", "substr"):
                 lines.append("bi %d %s %d %d %s" % (fresh(), op, a, ii(), jj()))
             elif op in ("at", "charAt"):
@@ -380,6 +381,16 @@ def gen_sequence(r, nops):
             elif op in ("replace", "replaceAll"):
                 # patterns that occur: a short piece of the subject's source when known
                 lines.append("bi %d %s %d %d %d" % (fresh(), op, a, b, c))
+            elif op in ("trim", "trimStart", "trimEnd"):
+                lines.append("bi %d %s %d" % (fresh(), op, a))
+            elif op == "raw":
+                nseg = r.randint(1, 3)
+                regs_ = [reg() for _ in range(nseg + r.randint(0, 3))]
+                lines.append("bi %d raw %d %s" % (fresh(), nseg, " ".join(map(str, regs_))))
+            elif op == "splitjoinlim":
+                lines.append("bi %d splitjoinlim %d %d %d %d" % (fresh(), a, b, c, r.choice([0, 1, 1, 2, 3, 5, 40])))
+            elif op == "splitpiecelim":
+                lines.append("bi %d splitpiecelim %d %d %d %d" % (fresh(), a, b, r.choice([0, 0, 1, 2, 3]), r.choice([0, 1, 2, 2, 3, 5, 40])))
             elif op == "splitjoin":
                 lines.append("bi %d splitjoin %d %d %d" % (fresh(), a, b, c))
             elif op == "splitpiece":
@@ -934,12 +945,16 @@ def regen_own(ctx, timeout=600):
 def setup(ctx, need_model=True):
     ck = Check(ctx)
     ok_regen = regen_own(ctx)
-    ok, errs = ctx.lake_build(["GojaModel.C06.Props", "GojaModel.C06.Tie", "model_c06"])
+    ok, errs = ctx.lake_build(["GojaModel.C06.Props", "GojaModel.C06.Props2", "GojaModel.C06.Props3", "GojaModel.C06.Tie", "model_c06"])
     if ok_regen and ok:
         ctx.obligation("tie:StrSites+threshold", "tie", True, "Generated.C06_Sites = Expected (Tie.lean) checked by the Lean kernel")
     ctx.audit("GojaModel.C06.Props", expect_min=40)
+    ctx.audit("GojaModel.C06.Props2", expect_min=10)
+    ctx.audit("GojaModel.C06.Props3", expect_min=3)
     if ctx.tier == "thorough":
         ctx.leanchecker("GojaModel.C06.Props")
+        ctx.leanchecker("GojaModel.C06.Props2")
+        ctx.leanchecker("GojaModel.C06.Props3")
     ck.m = ctx.model_exe()
     # the driver does not depend on generated facts; build it on its own if the combined build failed
     if not ok:
